@@ -19,7 +19,8 @@ VFX = os.environ.get("VERIF_VFX", "/verif/.cache/vfx-target/release/vfx")
 
 
 # zero-argument `&self` observers of dependency / crate types: modelled as uninterpreted functions of the receiver
-PURE_GETTERS = {"to_be_bytes", "to_le_bytes", "to_bits", "to_bytes", "size", "is_zero", "is_empty", "degree", "is_identity", "is_on_curve", "is_torsion_free", "is_small_order", "is_prime_order", "is_some", "is_none", "index",
+PURE_GETTERS = {"to_be_bytes", "to_le_bytes", "to_bits", "to_bytes", "size", "is_zero", "is_empty", "degree", "is_identity", "is_on_curve", "is_torsion_free", "is_small_order", "is_prime_order", "is_some", "is_none", "index", "leading_zeros", "trailing_zeros", "count_ones",
+                "is_power_of_two", "next_power_of_two", "checked_next_power_of_two",
                 "max_degree", "constraints", "unwrap"}
 
 
@@ -29,7 +30,8 @@ DEP_CONSTS = {"BlsScalar::CAPACITY": 254, "BlsScalar::NUM_BITS": 255, "usize::BI
 
 
 # integer helper methods: uninterpreted binary functions when an operand is symbolic
-PURE_BINARY = {"saturating_sub", "saturating_add", "wrapping_sub", "wrapping_add", "checked_add", "checked_sub", "checked_mul",
+PURE_BINARY = {"saturating_sub", "saturating_add", "wrapping_sub", "wrapping_add", "checked_add", "checked_sub", "checked_mul", "checked_shl", "checked_shr",
+               "checked_div", "checked_pow", "saturating_mul",
                "unwrap_or", "pow"}
 
 
@@ -1454,6 +1456,10 @@ class Interp:
     def try_inline(self, name, args):
         root, rel, owner = self.file_root
         cands = [name] + ([f"{owner}::{name}"] if owner else [])
+        if owner:
+            # `Self::helper` inside `impl Trait for T` lives in the inherent impl of T
+            ty = owner[1:].split("as")[0].strip() if owner.startswith("<") else owner
+            cands += [f"{ty}::{name}", f"{ty.split('::')[-1]}::{name}"]
         ast = None
         for c in cands:
             try:
@@ -1532,7 +1538,14 @@ class Interp:
         for key in self.method_keys(e, recv, m):
             if key in self.contracts:
                 n0 = len(self.ctx.exits)
-                r = self.contracts[key](self, recv, args)
+                n1 = len(self.ctx.log)
+                try:
+                    r = self.contracts[key](self, recv, args)
+                except (ValueError, IndexError, TypeError, KeyError, AttributeError) as ex_:
+                    # the contract was written for another signature / argument shape of the callee (the callee changed): it does
+                    # not apply, and inlining the callee instead would compare its low-level effects with the caller contract's
+                    # summarised event -- apples and oranges.  The caller is UNDECIDED.
+                    raise OutsideFragment(f"the contract of callee `{key}` does not fit this call (callee signature changed?): {type(ex_).__name__}: {ex_}")
                 if r is not NotImplemented:
                     self.calls.append(key)
                     if isinstance(r, VOk) and len(self.ctx.exits) > n0:
@@ -1936,7 +1949,11 @@ class Interp:
         # ---- contracts (by method name, optionally qualified by receiver hint)
         for key in self.method_keys(e, recv, m):
             if key in self.contracts:
-                r_ = self.contracts[key](self, recv, args)
+                n0_, n1_ = len(self.ctx.exits), len(self.ctx.log)
+                try:
+                    r_ = self.contracts[key](self, recv, args)
+                except (ValueError, IndexError, TypeError, KeyError, AttributeError) as ex_:
+                    raise OutsideFragment(f"the contract of callee `{key}` does not fit this call (callee signature changed?): {type(ex_).__name__}: {ex_}")
                 if r_ is not NotImplemented:
                     self.calls.append(key)
                     return r_
